@@ -1,5 +1,6 @@
 //! E4: network adversaries over scripted transports, through the `verif` facade of the network crate.
 mod alloc;
+mod c09;
 mod c10;
 mod c12;
 mod c13;
@@ -26,6 +27,7 @@ fn main() {
         ("C15", _) => c15::run(&args, &mut rep),
         ("C18", _) => c18::run(&args, &mut rep),
         ("C19", _) => c19::run(&args, &mut rep),
+        ("C09", _) => c09::run(&args, &mut rep),
         ("C10", _) => c10::run(&args, &mut rep),
         ("C12", "pool") => pool::run(&args, &mut rep),
         ("C12", _) => c12::run(&args, &mut rep),
